@@ -1,10 +1,111 @@
-(* C18 -- property theorems only. *)
+(* C18 -- property theorems only.  Each is closed by `exact <lemma>`; axioms are
+   printed by the audit step of bin/check (Print Assumptions per theorem).
+
+   decode / parse / encode are the executable model of lib/json/json.go
+   (Model.v, tied to /repo by the correspondence check on every run);
+   spec_decode is the RFC 8259 reference decoder (Spec.v); jread is the JSON
+   reading of a Starlark value (Reading.v). *)
 From Coq Require Import NArith ZArith List Bool.
-From SV Require Import C15.Utf8 C15.Float C18.Spec C18.Model C18.Reading C18.Proofs.
+From SV Require Import C15.Utf8 C15.Float C18.Spec C18.Model C18.Reading
+  C18.ProofsSpec C18.ProofsDecode C18.ProofsEncode C18.ProofsReading.
 Import ListNotations.
 Open Scope N_scope.
 
-(* json.decode(d, default) returns the caller's default exactly when parsing fails *)
-Theorem default_iff_decode_fails : forall (A : Type) (d : list N) (dflt : A),
-  decode_default d dflt = RDefault dflt <-> decode d = DErr.
-Proof. exact decode_default_iff_lemma. Qed.
+(* The reference decoder is total: the fuel it runs with always suffices, so
+   SpecOk / SpecInvalid / SpecRange exhaust the outcomes on every byte string. *)
+Theorem spec_decode_total : forall d, spec_decode d <> SpecFuel.
+Proof. exact spec_decode_total_lemma. Qed.
+
+(* json.decode agrees with the standards-conforming decoder on EVERY byte
+   string: the same value (same integers at any size, same binary64 bits, same
+   string bytes, same member order) on every valid document, rejection of every
+   invalid document and of every document whose number overflows binary64; and
+   the model's own recursion fuel never runs out. *)
+Theorem decode_agrees_with_spec : forall d,
+  (forall j, spec_decode d = SpecOk j -> decode d = DOk j) /\
+  (spec_decode d = SpecInvalid -> decode d = DErr) /\
+  (spec_decode d = SpecRange -> decode d = DErr) /\
+  decode d <> DFuel.
+Proof. exact decode_agrees_with_spec_lemma. Qed.
+
+(* json.decode(d, default) returns the caller's default exactly when the
+   document is invalid (or not representable), and the document's value exactly
+   when the reference gives it one -- never the default on a valid document. *)
+Theorem default_only_on_invalid : forall (A : Type) (d : list N) (dflt : A),
+  (decode_default d dflt = RDefault dflt <-> (spec_decode d = SpecInvalid \/ spec_decode d = SpecRange)) /\
+  (forall j, decode_default d dflt = RValue j <-> spec_decode d = SpecOk j).
+Proof. exact default_lemma. Qed.
+
+(* json.encode emits a valid JSON document denoting the same data as its
+   argument: for every value x on which encode succeeds (fstr = Float.String,
+   constrained only by the named oracle `float_texts_read_back`: strconv's
+   shortest formatting reads back), the reference decoder accepts the output and
+   reads it as the JSON reading of x -- strings byte for byte (control and
+   non-ASCII characters included), integers exact at any size, floats
+   bit-identical, tuples as arrays, dict/struct members as an object in byte-wise
+   key order.  (For a string that is not valid UTF-8 the reading has U+FFFD for
+   each offending byte: Reading.v.) *)
+Theorem encode_valid : forall (fstr : N -> list N) (x : value) (out : list N),
+  encode fstr x = Some out -> float_texts_read_back fstr x ->
+  spec_decode out = SpecOk (jread x).
+Proof. exact encode_valid_lemma. Qed.
+
+(* json.decode(json.encode(x)) is the JSON reading of x. *)
+Theorem decode_encode : forall (fstr : N -> list N) (x : value) (out : list N),
+  encode fstr x = Some out -> float_texts_read_back fstr x ->
+  decode out = DOk (jread x).
+Proof. exact decode_encode_lemma. Qed.
+
+(* On JSON-representable x (strings valid UTF-8, finite floats, string keys,
+   keys pairwise distinct) the reading is the plain one -- nothing is coerced or
+   merged: strings byte for byte, tuples as lists, dict and struct as objects
+   with their members in byte-wise key order. *)
+Theorem reading_exact : forall x, representable x = true -> jread x = jplain x.
+Proof. exact reading_exact_lemma. Qed.
+
+(* json.decode(json.encode(x)) equals x for every JSON-representable x. *)
+Theorem decode_encode_representable : forall (fstr : N -> list N) (x : value) (out : list N),
+  representable x = true -> encode fstr x = Some out -> float_texts_read_back fstr x ->
+  spec_decode out = SpecOk (jplain x) /\ decode out = DOk (jplain x).
+Proof. exact decode_encode_representable_lemma. Qed.
+
+(* json.encode fails exactly on the values its documentation excludes:
+   non-finite floats, dicts with a non-string key, values of no JSON kind. *)
+Theorem encode_errors_exactly : forall (fstr : N -> list N) (x : value),
+  (exists out, encode fstr x = Some out) <-> encodable x = true.
+Proof. exact encode_errors_lemma. Qed.
+
+(* Non-vacuity: each premise above holds on concrete, non-trivial documents.
+   {"a":[1,2.5e0,"é😀"],"a":null}   (duplicate key, escapes, a pair)
+   [1.]   and   "<raw newline>"                       (invalid: the repaired defects)
+   [1e999]                                            (valid but not representable) *)
+Example premises_hold :
+  spec_decode [123;34;97;34;58;91;49;44;50;46;53;101;48;44;34;92;117;48;48;101;57;92;117;100;56;51;100;92;117;100;101;48;48;34;93;44;34;97;34;58;110;117;108;108;125]
+    = SpecOk (JObj [([97], JNull)]) /\
+  spec_decode [123;34;97;34;58;91;49;44;50;46;53;101;48;44;34;92;117;48;48;101;57;92;117;100;56;51;100;92;117;100;101;48;48;34;93;125]
+    = SpecOk (JObj [([97], JArr [JInt 1; JFloat 4612811918334230528; JStr [195;169;240;159;152;128]])]) /\
+  spec_decode [91;49;46;93] = SpecInvalid /\
+  spec_decode [34;10;34] = SpecInvalid /\
+  spec_decode [91;49;101;57;57;57;93] = SpecRange /\
+  decode_default [91;49;46;93] 7%nat = RDefault 7%nat.
+Proof. vm_compute. repeat split. Qed.
+
+(* Non-vacuity of encode_valid / decode_encode: struct(b = (1.5, -0.0, 1e21), a = {"k\x7f": [None, 2^70]})
+   with Float.String given by fmt_g on the shortest digits of the three floats. *)
+Definition ex_fstr (b : N) : list N :=
+  if b =? 4609434218613702656 then fmt_g false [1; 5] 1
+  else if b =? 9223372036854775808 then fmt_g true [] 0
+  else fmt_g false [1] 22.
+Definition ex_value : value :=
+  VStruct [([98], VTuple [VFloat 4609434218613702656; VFloat 9223372036854775808; VFloat 4921056587992461136]);
+           ([97], VDict [(VStr [107; 127], VList [VNone; VInt 1180591620717411303424])])].
+Example encode_premises_hold :
+  float_texts_read_back ex_fstr ex_value /\
+  representable ex_value = true /\
+  exists out, encode ex_fstr ex_value = Some out /\ decode out = DOk (jread ex_value) /\
+    jread ex_value = JObj [([97], JObj [([107; 127], JArr [JNull; JInt 1180591620717411303424])]);
+                           ([98], JArr [JFloat 4609434218613702656; JFloat 9223372036854775808; JFloat 4921056587992461136])].
+Proof.
+  split; [vm_compute; repeat split|]. split; [reflexivity|].
+  eexists. split; [vm_compute; reflexivity|]. split; vm_compute; reflexivity.
+Qed.
